@@ -454,7 +454,8 @@ pub fn run(property: &str, tier: Tier, started: std::time::Instant) -> Vec<Part>
         Tier::Thorough => vec![
             exhaustive(property, 5, 5, wall(600)),
             exhaustive(property, 3, 6, wall(1200)),
-            bfs(property, 5, 40, 6_000_000, wall(2400)),
+            bfs(property, 3, 40, 6_000_000, wall(1500)),
+            bfs(property, 4, 40, 6_000_000, wall(2400)),
         ],
     }
 }
